@@ -158,6 +158,7 @@ EXT4={
  "C20":" Fresh types that inherit from / refer to existing types.",
 }
 EXT5={
+ "C10":" Rejected documents stay rejected: every single-fault document of C11 that the scan phase reads, under all orders of its top-level declarations (<= 4 declarations; all transpositions beyond).",
  "C01":" A zero byte at every subset of 1..3 of 17 places of one accepted document (LF and CRLF).",
  "C02":" The zero-byte stream; INCLUDE lines whose file name follows a block comment of several lines.",
  "C03":" Every multi-instance document also with names that differ in letter case only.",
